@@ -183,6 +183,25 @@ var GposSimple = []Simple{
 			Mark2Array: [][]anchor.Table{{{X: 30, Y: 40}}},
 		}}
 	}},
+	{"GPOS2.2 classes, class pairs without any adjustment", 2, func() []gtab.Subtable {
+		return []gtab.Subtable{&gtab.Gpos2_2{
+			Cov:    coverage.Set{GA: true, GB: true},
+			Class1: classdef.Table{GB: 1},
+			Class2: classdef.Table{GB: 1, GL: 1},
+			Adjust: [][]*gtab.PairAdjust{
+				{{}, {First: &gtab.GposValueRecord{XAdvance: -11}}},
+				{{First: &gtab.GposValueRecord{XAdvance: 7}}, {}},
+			},
+		}}
+	}},
+	{"GPOS4.1 three mark classes of which the last has no mark glyph", 4, func() []gtab.Subtable {
+		return []gtab.Subtable{&gtab.Gpos4_1{
+			MarkCov:   cov(GM, GN),
+			BaseCov:   cov(GA, GB),
+			MarkArray: []markarray.Record{{Class: 0, Table: anchor.Table{X: 10, Y: 20}}, {Class: 1, Table: anchor.Table{X: -5, Y: 3}}},
+			BaseArray: [][]anchor.Table{{{X: 250, Y: 700}, {X: 260, Y: -50}, {X: 11, Y: 12}}, {{X: 300, Y: 710}, {X: 7, Y: 9}, {X: 13, Y: 14}}},
+		}}
+	}},
 	{"GPOS4.1 three mark classes of which class 1 has no mark glyph", 4, func() []gtab.Subtable {
 		return []gtab.Subtable{&gtab.Gpos4_1{
 			MarkCov:   cov(GM, GN),
